@@ -133,7 +133,8 @@ def tlc(module, cfg=None, env=None, workers=2, timeout=1800, simulate=None, dept
     shutil.rmtree(meta, ignore_errors=True)
     res = TlcResult(rc, out, dt)
     # rc: 0 ok, 12 invariant violated, 13 property violated, 10 assumption, 11 deadlock; others are tool trouble
-    if rc not in (0, 12, 13) or (rc == 0 and not res.finished and not simulate):
+    # 0 ok, 12 invariant violated, 13 property violated, 10 assumption / postcondition false
+    if rc not in (0, 10, 12, 13) or (rc == 0 and not res.finished and not simulate):
         raise ToolError('TLC failed on %s (rc=%s), see %s:\n%s' % (module, rc, log, '\n'.join(out.splitlines()[-25:])))
     return res
 
